@@ -476,7 +476,13 @@ fn run_rustfmt(value: &str) -> Option<String> {
         return None;
     }
 
-    String::from_utf8(output.stdout).ok()
+    // A formatter that prints nothing did not format the code.
+    let formatted = String::from_utf8(output.stdout).ok()?;
+    if formatted.trim().is_empty() {
+        None
+    } else {
+        Some(formatted)
+    }
 }
 
 fn indexed_name_to_ident(name: &str, index: u32) -> Ident {
